@@ -111,20 +111,20 @@ def condenseStatic (env : Env) (a : Annotation) : Except Err Annotation :=
 
 /-! ### _pop_delta_mass_mods -/
 
-/-- one mod list: pure mass shifts are summed (the multiplier is NOT applied) and removed, the others are kept -/
+/-- one mod list: pure mass shifts are summed (times their multiplier) and removed, the others are kept -/
 def popList (env : Env) (l : List Mod) : Except Err (Rat × List Mod) :=
   l.foldrM (fun m (acc : Rat × List Mod) => do
     let d ← (env.res m.val).delta
     match d with
-    | some v => pure (acc.1 + v, acc.2)
+    | some v => pure (acc.1 + v * (m.mult : Rat), acc.2)
     | none => pure (acc.1, m :: acc.2)) ((0 : Rat), [])
 
 def popOpt (env : Env) : Option (List Mod) → Except Err (Rat × Option (List Mod))
   | none => pure (0, none)
   | some l => do let (d, k) ← popList env l; pure (d, some k)
 
-/-- `_pop_delta_mass_mods`: labile, unknown, N-term, C-term, intervals, internal — labile shifts are popped whatever
-the ion type is.  (`clear_empty_mods` only turns emptied lists into `None`, which no later step distinguishes.) -/
+/-- `_pop_delta_mass_mods`: labile, unknown, N-term, C-term, intervals, internal.
+(`clear_empty_mods` only turns emptied lists into `None`, which no later step distinguishes.) -/
 def popDeltaMassMods (env : Env) (a : Annotation) : Except Err (Rat × Annotation) := do
   let (d1, lab) ← popOpt env a.labile
   let (d2, unk) ← popOpt env a.unknown
@@ -227,6 +227,8 @@ def compMass : CompMassFn := fun env a ion charge isotope adducts isoMods useIso
   let a := match isoMods with | some l => { a with isotope := some l } | none => a
   -- clear_empty_mods (inside _pop_delta_mass_mods) turns an empty adduct list into None
   let a ← condenseStatic env a
+  -- labile modifications belong to the precursor only: `if ion_type != 'p': annotation.pop_labile_mods()`
+  let a := if ion = ionP then a else { a with labile := none }
   let (delta, a) ← popDeltaMassMods env a
   let a := match a.adducts with | some [] => { a with adducts := none } | _ => a
   let c ← sequenceComp env a ion isotope useIso
